@@ -88,3 +88,78 @@ class Gen:
 def val_of_parts(c, n):
     """the clamped count from_parts(c, n) denotes"""
     return max(MINV, min(MAXV, c * NPC + n))
+
+
+# ---- epochs ----
+SCALES = {"TAI": 0, "TT": 1, "ET": 2, "TDB": 3, "UTC": 4, "GPST": 5, "GST": 6, "BDT": 7, "QZSST": 8}
+UNIFORM = [0, 1, 5, 6, 7, 8]
+INT_SCALES = [0, 1, 4, 5, 6, 7, 8]
+LEAP_TS = [2272060800, 2287785600, 2303683200, 2335219200, 2366755200, 2398291200, 2429913600, 2461449600,
+           2492985600, 2524521600, 2571782400, 2603318400, 2634854400, 2698012800, 2776982400, 2840140800,
+           2871676800, 2918937600, 2950473600, 2982009600, 3029443200, 3076704000, 3124137600, 3345062400,
+           3439756800, 3550089600, 3644697600, 3692217600]
+LEAP_DELTA = list(range(10, 38))
+SEC = 10**9
+REF_NS = {0: 0, 1: 0, 4: 0, 5: 2524953619 * SEC, 8: 2524953619 * SEC, 6: 3144268819 * SEC, 7: NPC + 189302433 * SEC,
+          2: 3155716800 * SEC, 3: 3155716800 * SEC}
+
+
+def parts_of(v):
+    v = max(MINV, min(MAXV - 1, v))
+    return divmod(v, NPC)
+
+
+def days_from_civil(y, m, d):
+    y2 = y - 1 if m <= 2 else y
+    era = y2 // 400
+    yoe = y2 % 400
+    doy = (153 * (m - 3 if m > 2 else m + 9) + 2) // 5 + d - 1
+    doe = yoe * 365 + yoe // 4 - yoe // 100 + doy
+    return era * 146097 + doe - 693901
+
+
+def is_leap(y):
+    return (y % 4 == 0 and y % 100 != 0) or y % 400 == 0
+
+
+def mlen(y, m):
+    return [31, 29 if is_leap(y) else 28, 31, 30, 31, 30, 31, 31, 30, 31, 30, 31][m - 1]
+
+
+class EGen(Gen):
+    def epoch_vals_pool(self):
+        """signed counts (ns) of interest in an epoch's own scale"""
+        vs = set()
+        for base in [0, NPC, -NPC, 2 * NPC, -2 * NPC, NPD, -NPD, 36524 * NPD, 25567 * NPD]:
+            for d in (-1, 0, 1, -SEC, SEC, 37 * SEC, -37 * SEC):
+                vs.add(base + d)
+        return sorted(vs)
+
+    def leap_neighbourhood(self, quick=True):
+        """counts around every leap second threshold, at ns resolution"""
+        subs = [0, 1, SEC // 2, SEC - 1]
+        offs = list(range(-40, 41)) if not quick else [-40, -38, -37, -36, -35, -20, -11, -10, -9, -2, -1, 0, 1, 2, 9, 10, 11, 35, 36, 37, 38, 40]
+        out = []
+        for ts in LEAP_TS:
+            for o in offs:
+                for s in subs:
+                    out.append((ts + o) * SEC + s)
+        return out
+
+    def rand_epoch_val(self):
+        r = self.r
+        k = r.random()
+        if k < 0.25:
+            return r.choice(LEAP_TS) * SEC + r.randint(-40 * SEC, 40 * SEC)
+        if k < 0.5:
+            return r.choice(list(REF_NS.values())) + r.choice([-1, 1]) * int(10 ** r.uniform(0, 20))
+        if k < 0.8:
+            return r.randint(-3 * NPC, 3 * NPC)
+        if k < 0.95:
+            return r.randint(-100 * NPC, 100 * NPC)
+        return r.randint(MINV, MAXV - 1)
+
+    def rand_epoch(self, scales=None):
+        v = self.rand_epoch_val()
+        c, n = parts_of(v)
+        return (c, n, self.r.choice(scales or INT_SCALES))
